@@ -302,7 +302,91 @@ pub fn base_tx(caller: Address, to: Option<Address>, nonce: u64, spec: SpecId, b
         tx_type,
         auths: vec![],
         access_list: vec![],
+        blob_hashes: vec![],
+        max_fee_per_blob_gas: 0,
         label: String::new(),
+    }
+}
+
+/// Blob gas price for an excess (EIP-4844 fake exponential, Prague update fraction) - only used to pick
+/// fee caps around the price; the verdicts come from revm.
+fn blob_price(excess: u64) -> u128 {
+    let (factor, numerator, denominator) = (1u128, excess as u128, 5_007_716u128);
+    let mut i = 1u128;
+    let mut output = 0u128;
+    let mut accum = factor * denominator;
+    while accum > 0 {
+        output += accum;
+        accum = accum * numerator / (denominator * i);
+        i += 1;
+    }
+    output / denominator
+}
+
+/// EIP-4844 post-pass (Cancun and later), driven by its OWN generator derived from the scenario seed so
+/// that every other choice of `generate` is what it was before blob transactions existed: some ordinary
+/// type-2 calls become blob transactions (type 3: 1-3 versioned hashes, a blob fee cap at / above the
+/// block's blob gas price - the blob fee is burned, counts towards the maximum cost of the transaction
+/// and is not part of the fee recipient's reward); in the invalid profile the LAST transaction of a
+/// sender may become a malformed blob transaction (no blobs, wrong version byte, cap below the price,
+/// too many blobs, blob CREATE).
+fn blob_pass(seed: u64, profile: Profile, spec: SpecId, block: &mut crate::scenario::BlockSpec, txs: &mut [TxSpec]) {
+    if spec < SpecId::CANCUN {
+        return;
+    }
+    let mut rng = Prng::new(crate::prng::derive(seed, 0xb10b_4844));
+    block.excess_blob_gas = *rng.pick(&[0u64, 0, 5_000_000, 12_000_000, 20_000_000]);
+    let price = blob_price(block.excess_blob_gas);
+    let hash = |rng: &mut Prng, version: u8| {
+        let mut h = B256::from(U256::from(rng.next_u64()));
+        h.0[0] = version;
+        h
+    };
+    let n = txs.len();
+    for i in 0..n {
+        let last_of_sender = !txs[i + 1..].iter().any(|t| t.caller == txs[i].caller);
+        let tx = &mut txs[i];
+        let eligible = tx.to.is_some() && tx.tx_type == 2 && tx.auths.is_empty() && !tx.label.contains('+');
+        if !eligible {
+            continue;
+        }
+        let own = tx.label == "own-tx-of-delegated";
+        let convert = if own { rng.chance(1, 3) } else { rng.chance(1, 8) };
+        if !convert {
+            continue;
+        }
+        tx.tx_type = 3;
+        tx.chain_id = Some(1);
+        let blobs = rng.range(1, 3);
+        tx.blob_hashes = (0..blobs).map(|_| hash(&mut rng, 1)).collect();
+        // own transactions of a delegated account: a cap on the scale of the transaction's gas fee, so
+        // that the blob term of the maximum cost matters at the margin of the reserve
+        tx.max_fee_per_blob_gas = price + if own { *rng.pick(&[0u128, 30, 100, 120]) } else { *rng.pick(&[0u128, 1, 50]) };
+        tx.label.push_str("/blob");
+        if profile == Profile::Invalid && last_of_sender && rng.chance(1, 2) {
+            match rng.below(5) {
+                0 => {
+                    tx.blob_hashes.clear();
+                    tx.label.push_str("+no-blobs");
+                }
+                1 => {
+                    tx.blob_hashes[0] = hash(&mut rng, 2);
+                    tx.label.push_str("+blob-version");
+                }
+                2 => {
+                    tx.max_fee_per_blob_gas = price - 1;
+                    tx.label.push_str("+blob-fee-below-price");
+                }
+                3 => {
+                    tx.blob_hashes = (0..10).map(|_| hash(&mut rng, 1)).collect();
+                    tx.label.push_str("+too-many-blobs");
+                }
+                _ => {
+                    tx.to = None;
+                    tx.label.push_str("+blob-create");
+                }
+            }
+        }
     }
 }
 
@@ -747,7 +831,7 @@ pub fn generate(seed: u64, opts: &GenOptions) -> Scenario {
     let disable_nonce_check = g.rng.chance(1, 6);
     let concurrency = g.rng.range(1, opts.max_workers as u64) as usize;
     let n = txs.len();
-    let scenario = Scenario {
+    let mut scenario = Scenario {
         evm: EvmSpec { spec, chain_id: 1, disable_nonce_check },
         block: BlockSpec {
             number: *g.rng.pick(&[100u64, 100, 1000, 300]),
@@ -757,6 +841,7 @@ pub fn generate(seed: u64, opts: &GenOptions) -> Scenario {
             basefee,
             prevrandao: B256::from(U256::from(g.rng.next_u64())),
             difficulty: if spec >= SpecId::MERGE { U256::ZERO } else { U256::from(1000) },
+            excess_blob_gas: 0,
         },
         pre_state,
         block_hashes: (90..100).map(|n| (n, B256::from(U256::from(0xb10c_0000u64 + n)))).collect(),
@@ -777,6 +862,7 @@ pub fn generate(seed: u64, opts: &GenOptions) -> Scenario {
         later: vec![],
         profile: profile.name().into(),
     };
+    blob_pass(seed, profile, spec, &mut scenario.block, &mut scenario.txs);
     scenario
 }
 
